@@ -180,6 +180,11 @@ def build_msg(m):
             base["ser"] = [0, 5, 42, 99, 255][x[1] % 5]        # unknown serializer id, everything else valid
         elif x[0] == "bad-type":
             base["type"] = [0, 2, 3, 5, 7, 255][x[1] % 6]
+        elif x[0] == "flip" and base["ser"] == 2 and base["type"] in (wire.CONNECT, wire.INVOKE):
+            # bit-flipped bytes are never handed to marshal.loads: CPython's marshal answers some of them with a multi-gigabyte allocation
+            # (one flipped type byte turns a 4-element tuple into one of two thousand million elements) or a crash - the class of the
+            # open finding "marshal-self-reference", not something a search should walk into at random seeds
+            continue
         elif x[0] == "trailing-call":
             # a second, complete call is glued behind the payload (inside the same message): it is nobody's request
             base["payload"] = base["payload"] + live.call_payload(ser, "w", "f", (31337 + x[1] % 5,), {})
